@@ -338,6 +338,80 @@ def suite_merge_polygons(ctx):
         ctx.count("merge.polygons." + place)
 
 
+def suite_area_slices_divisible(ctx):
+    """the divisibility adjustment as the public entry point applies it: AreaDefinition.get_area_slices(area_to_cover, shape_divisible_by=k)
+    against the same call without the factor, for sources of every aspect ratio (wide, tall, square) and targets in another projection
+    placed all over the source, concentrated near its edges (where a slice runs out of room on one side).  Per axis, with the length of
+    THAT axis of the source: the contract of the statement (_div_contract), the unadjusted slice being the 'original'."""
+    import warnings
+
+    from pyresample.geometry import AreaDefinition
+    r = ctx.rng
+    sources = [("longlat", "EPSG:4326", (-60.0, 35.0, 60.0, 65.0)), ("longlat", {"proj": "longlat", "datum": "WGS84"}, (-20.0, 30.0, 40.0, 70.0)),
+               ("laea", {"proj": "laea", "lat_0": 52.0, "lon_0": 10.0, "ellps": "WGS84"}, (-2.4e6, -1.2e6, 2.4e6, 1.2e6)),
+               ("stere", {"proj": "stere", "lat_0": 90.0, "lat_ts": 60.0, "lon_0": 0.0, "ellps": "WGS84"}, (-1.5e6, -4.5e6, 1.5e6, -1.5e6))]
+    shapes = [(240, 60), (60, 200), (90, 36), (37, 150), (64, 64), (200, 25), (18, 75), (120, 45)]       # (width, height)
+    factors = [2, 3, 4, 5, 7, 8, 16]
+    done = 0
+    attempts = 0
+    want = 18 if ctx.quick else 150
+    while done < want and attempts < want * 4:
+        attempts += 1
+        sname, sproj, sext = r.choice(sources)
+        w, h = r.choice(shapes)
+        with warnings.catch_warnings():
+            warnings.simplefilter("ignore")
+            src = AreaDefinition("src", "src", "src", sproj, w, h, sext)
+        # centre of the target as a fraction of the source's width / height: anywhere, or close to one of the four edges
+        near = [r.uniform(0.02, 0.12), r.uniform(0.88, 0.98)]
+        fu = r.choice(near) if r.random() < 0.5 else r.uniform(0.1, 0.9)
+        fv = r.choice(near) if r.random() < 0.5 else r.uniform(0.1, 0.9)
+        cx, cy = sext[0] + fu * (sext[2] - sext[0]), sext[3] - fv * (sext[3] - sext[1])
+        lon0, lat0 = (float(v) for v in src.get_lonlat_from_projection_coordinates(cx, cy))
+        if not (np.isfinite(lon0) and np.isfinite(lat0)):
+            continue
+        # size of the target: a fraction of the source's shorter side, in metres on the ground
+        px_m = (sext[2] - sext[0]) / w * (111000.0 if sname == "longlat" else 1.0)
+        py_m = (sext[3] - sext[1]) / h * (111000.0 if sname == "longlat" else 1.0)
+        half = r.uniform(0.04, 0.3) * min(w * px_m * (np.cos(np.radians(lat0)) if sname == "longlat" else 1.0), h * py_m)
+        tproj = {"proj": r.choice(["laea", "laea", "stere", "tmerc"]), "lon_0": round(lon0, 3), "lat_0": round(lat0, 3), "ellps": "WGS84"}
+        n = r.choice([20, 50])
+        with warnings.catch_warnings():
+            warnings.simplefilter("ignore")
+            dst = AreaDefinition("dst", "dst", "dst", tproj, n, n, (-half, -half, half, half))
+            try:
+                bx, by = src.get_area_slices(dst)
+            except NotImplementedError:
+                ctx.count("area_slices_divisible.no_overlap")
+                continue
+        if bx.step not in (None, 1) or by.step not in (None, 1) or not (0 <= bx.start < bx.stop <= w and 0 <= by.start < by.stop <= h):
+            ctx.count("area_slices_divisible.base_not_a_plain_inbounds_slice")
+            continue
+        done += 1
+        for f in r.sample(factors, 3 if ctx.quick else 5):
+            with warnings.catch_warnings():
+                warnings.simplefilter("ignore")
+                ax, ay = src.get_area_slices(dst, shape_divisible_by=f)
+            inp = {"source": {"crs": str(sproj)[:80], "shape": [h, w], "extent": list(sext)}, "target": {"crs": tproj, "shape": [n, n], "extent": [-half, -half, half, half]},
+                   "target_centre_as_fraction_of_source": [round(fu, 3), round(fv, 3)], "shape_divisible_by": f,
+                   "slices_without_factor": {"x": [bx.start, bx.stop], "y": [by.start, by.stop]}}
+            probs = []
+            for axis, base, adj, length in (("x", bx, ax, w), ("y", by, ay, h)):
+                if adj.step not in (None, 1):
+                    probs.append(f"{axis}: step {adj.step}")
+                    continue
+                pp = _div_contract(base.start, base.stop, length, f, (adj.start, adj.stop))
+                if pp:
+                    probs.append(f"{axis} axis (length {length}): slice({base.start}, {base.stop}) -> slice({adj.start}, {adj.stop}): " + ",".join(pp))
+            if probs:
+                ctx.fail("AreaDefinition.get_area_slices", "divisibility contract broken for the slices of the source area: " + "; ".join(probs), inp,
+                         {"x": [ax.start, ax.stop], "y": [ay.start, ay.stop]}, tags={"non_square_source": w != h}, size=f + 5)
+            rem = (bx.stop - bx.start) % f != 0 or (by.stop - by.start) % f != 0
+            ctx.case("area_slices_divisible", (sname, w, h, round(fu, 6), round(fv, 6), round(half, 3), f), nontrivial=rem and w != h,
+                     sample={"input": inp, "impl": {"x": [ax.start, ax.stop], "y": [ay.start, ay.stop]}})
+            ctx.count("area_slices_divisible." + ("square" if w == h else "wide" if w > h else "tall"))
+
+
 def run(ctx):
     suite_merge_polygons(ctx)
     suite_getslice(ctx)
@@ -345,3 +419,4 @@ def run(ctx):
     suite_rowapp(ctx)
     suite_divisible(ctx)
     suite_merge(ctx)
+    suite_area_slices_divisible(ctx)
